@@ -65,6 +65,7 @@ class NativeWorker:
 
 
 _native = NativeWorker()
+CVC5 = {'on': bool(os.environ.get('SYMX_CVC5')), 'seen': 0}
 
 
 # ---------------------------------------------------------------------------
@@ -82,6 +83,9 @@ class PathEngine:
         self.reached = {}
         self.closing = 0
         self.closing_s = 0.0
+        self.cvc5_checked = 0
+        self.cvc5_other = 0
+        self.cvc5_disagree = []
 
     def check(self, ctx, name, cond, known, info):
         path = ctx.path
@@ -101,6 +105,19 @@ class PathEngine:
         sat = path._check(neg)
         if not sat:
             self.closing_s += time.time() - t
+            if CVC5['on']:
+                CVC5['seen'] += 1
+                if CVC5['seen'] <= 5 or CVC5['seen'] % 40 == 0:
+                    from . import cvc5check
+                    try:
+                        r = cvc5check.check(list(path.pc) + [neg])
+                    except Exception as e:      # parser / option problems
+                        r = 'error: %r' % (e,)
+                    self.cvc5_checked += 1
+                    if r == 'sat':
+                        self.cvc5_disagree.append(name)
+                    elif r != 'unsat':
+                        self.cvc5_other += 1
             ctx.checks.append((name, True, None))
             return
         model = path.last_model()
@@ -179,7 +196,9 @@ def run_path(module, h, params, prefix, prop_id, known_ids, seed, validate):
             'violations': eng.violations, 'known': eng.known_hits,
             'reached': eng.reached, 'closing': eng.closing,
             'tags': ctx.tags, 'notes': list(set(path.notes)),
-            'fork_sites': path.fork_sites}
+            'fork_sites': path.fork_sites,
+            'cvc5': [eng.cvc5_checked, eng.cvc5_other,
+                     list(eng.cvc5_disagree)]}
     inputs = None
     if status == 'ok' and validate:
         # witness: one model of the path condition, replayed natively
@@ -331,6 +350,12 @@ def _accumulate(s, leaf):
     for k, v in leaf.get('fork_sites', {}).items():
         s.setdefault('fork_sites', {})
         s['fork_sites'][k] = s['fork_sites'].get(k, 0) + v
+    c5 = leaf.get('cvc5') or [0, 0, []]
+    s['cvc5_checked'] = s.get('cvc5_checked', 0) + c5[0]
+    s['cvc5_other'] = s.get('cvc5_other', 0) + c5[1]
+    if c5[2]:
+        s['divergences'].append('cvc5 says sat where z3 said unsat: %r' %
+                                (c5[2],))
     status = leaf['status']
     if status == 'infeasible':
         s['infeasible'] += 1
